@@ -127,10 +127,15 @@ theorem afterPlace_delivers (pb : Problem) (p : Rig.C02.Placement) (radius : Nat
 
 /-! ## with the placers of C02 -/
 
-/-- the documented domain of the chosen placer: the hypotheses of C02's soundness theorems -/
+/-- the documented domain of the chosen placer: the hypotheses of C02's soundness theorems that do not already
+follow from `Domain` (C02's `WF` does, given non-negative chip resources: `L.wf02`) -/
 structure PlacerDomain (pb : Problem) (pl : Placer) : Prop where
-  wf : Rig.C02.WF (vr02 pb) (cs02 pb) pb.m2
+  /-- chip resources are non-negative -/
+  nonnegCap : Rig.C02.NonNegCap pb.m2
+  /-- a same-chip group is never pinned to two different chips -/
   consistent : Rig.C02.Consistent (vr02 pb) (cs02 pb)
+  /-- with no vertex at all the placers return `{}` without looking at the constraints: then the reservations must
+  fit and nothing may be pinned -/
   emptyOK : Rig.C02.EmptyOK (vr02 pb) (cs02 pb) pb.m2
   /-- the oracle inputs are possible: a custom vertex order lists every vertex; the annealer's shuffled vertex list
   lists every movable vertex -/
@@ -141,17 +146,19 @@ structure PlacerDomain (pb : Problem) (pl : Placer) : Prop where
         Rig.C02.prepareLoop vr' cs' pb.m2 [] = .ok (m', fixed) → ∀ v ∈ Rig.C02.keys vr', v ∈ vs ∨ v ∈ Rig.C02.keys fixed
 
 /-- C02: whatever the chosen placer returns is feasible -/
-theorem runPlacer_feasible (pb : Problem) (pl : Placer) (p : Rig.C02.Placement) (hd : PlacerDomain pb pl)
+theorem runPlacer_feasible (pb : Problem) (pl : Placer) (p : Rig.C02.Placement) (dom : Domain pb)
+    (hd : PlacerDomain pb pl)
     (h : runPlacer pb pl = .ok p) : Rig.C02.Feasible (vr02 pb) (cs02 pb) pb.m2 p := by
+  have hwf := L.wf02 dom hd.nonnegCap
   cases pl with
-  | seq vo co => exact Rig.C02.seqPlace_sound _ _ _ vo co p hd.wf hd.consistent hd.emptyOK hd.oracle h
-  | rand picks => exact Rig.C02.randPlace_sound _ _ _ picks p hd.wf hd.consistent h
+  | seq vo co => exact Rig.C02.seqPlace_sound _ _ _ vo co p hwf hd.consistent hd.emptyOK hd.oracle h
+  | rand picks => exact Rig.C02.randPlace_sound _ _ _ picks p hwf hd.consistent h
   | sa locs vs steps =>
     simp only [runPlacer] at h
     split at h
     · rename_i r hr
       cases h
-      exact Rig.C02.saPlace_sound _ _ _ locs vs steps r.1 r.2 hd.wf hd.consistent hd.emptyOK hd.oracle hr
+      exact Rig.C02.saPlace_sound _ _ _ locs vs steps r.1 r.2 hwf hd.consistent hd.emptyOK hd.oracle hr
     · cases h
 
 /-- **model_pipeline_delivers** - the capstone of C01 for the composed model pipeline.
@@ -184,7 +191,7 @@ theorem model_pipeline_delivers (pb : Problem) (placer : Placer) (radius : Nat) 
   split at h
   · cases h
   · rename_i p hp
-    have hf := runPlacer_feasible pb placer p hpl hp
+    have hf := runPlacer_feasible pb placer p dom hpl hp
     have hpe := afterPlace_placement h
     rw [hpe]
     exact ⟨hp, hf, afterPlace_delivers pb p radius orc mini out dom hf h⟩
@@ -199,5 +206,123 @@ theorem model_pipeline_no_flag (pb : Problem) (placer : Placer) (radius : Nat) (
   intro q hq k hk
   obtain ⟨n, _, hn, hd⟩ := L.forall₂_right (model_pipeline_delivers pb placer radius orc mini out dom hpl h).2.2 q hq
   exact delivered_no_flag (hd k (by rw [← hn.1, ← hn.2.1]; exact hk))
+
+/-! ## non-vacuity: a concrete problem in the domain, run through `modelPipeline`
+
+5x1 machine, 3 cores per chip of which core 0 is reserved (monitor), a device on the east link of chip (4,0)
+(a dead link of the machine model).  Vertices 0, 1 (2 cores each), 3 (1 core) and the device vertex 2 (no resources,
+pinned to (4,0), RouteEndpointConstraint east).  Net A (key 4, mask 6: bit 0 don't-care) from vertex 0 to vertex 3
+twice; net B (key 2, mask 6) from vertex 1 to vertices 0, 1 (self loop) and the device.  Sequential placer, default
+orders; radius 1; default minimisation methods without target.  Net A passes straight through chip (1,0): its
+entry there is removed by the minimiser (default routing) - the final tables differ from the unminimised ones. -/
+
+def exPb : Problem :=
+  { vr := [(0, [(0, 2), (1, 10)]), (1, [(0, 2)]), (2, []), (3, [(0, 1)])],
+    nres := 2,
+    m2 := { w := 5, h := 1, res := [3, 100], exc := [], dead := [] },
+    deadLinks := [((4, 0), 0)],
+    cs := [.reserve 0 ⟨0, 1⟩ none, .loc 2 (4, 0), .endpoint 2 0],
+    nets := [{ src := 0, sinks := [3, 3], key := 4#32, mask := 6#32 },
+             { src := 1, sinks := [0, 1, 2], key := 2#32, mask := 6#32 }],
+    coreRes := 0 }
+
+def exOrc : List NetOracle :=
+  [{ dests := [(2, 0)], tape := List.replicate 30 0, order := [] },
+   { dests := [(4, 0), (1, 0), (0, 0)], tape := List.replicate 30 0, order := [] }]
+
+def exRun : Except PErr Out := modelPipeline exPb (.seq none none) 1 exOrc (some ([.rd, .oc], fun _ => none))
+
+/-- the final tables of the example -/
+def exFinal : Tables :=
+  [((0, 0), [{ route := 1, key := 4#32, mask := 6#32, sources := 2 ^ 24 },
+             { route := 392, key := 2#32, mask := 6#32, sources := 1 }]),
+   ((1, 0), [{ route := 392, key := 2#32, mask := 6#32, sources := 2 ^ 24 }]),
+   ((2, 0), [{ route := 128, key := 4#32, mask := 6#32, sources := 8 }]),
+   ((4, 0), [{ route := 1, key := 2#32, mask := 6#32, sources := 1 }])]
+
+/-- the model pipeline returns on the example: placement, allocation, and final tables by evaluation -/
+def exCheck (out : Out) : Bool :=
+  decide (out.placement = [(.o 2, (4, 0)), (.o 0, (0, 0)), (.o 1, (1, 0)), (.o 3, (2, 0))]) &&
+  decide (out.alloc = [(2, []), (0, [(0, ⟨1, 3⟩), (1, ⟨0, 10⟩)]), (1, [(0, ⟨1, 3⟩)]), (3, [(0, ⟨1, 2⟩)])]) &&
+  decide (out.final = exFinal) && decide (out.final ≠ tables04 out.T10) &&
+  decide (out.nets.map (fun q => (q.src, sinkCores q.sinks, sinkExits q.sinks)) =
+      [((0, 0), [((2, 0), 1), ((2, 0), 1)], []),
+       ((1, 0), [((0, 0), 1), ((0, 0), 2), ((1, 0), 1), ((1, 0), 2)], [((4, 0), 0)])])
+
+/-- the model pipeline returns on the example: placement, allocation, final tables (which differ from the
+unminimised ones), source chips and expected deliveries - by evaluation in the kernel -/
+theorem ex_runs : ∃ out, exRun = .ok out ∧ exCheck out = true := by
+  have h : (match exRun with
+      | .ok out => exCheck out
+      | .error _ => false) = true := by decide +kernel
+  cases hr : exRun with
+  | error e => rw [hr] at h; cases h
+  | ok out => rw [hr] at h; exact ⟨out, rfl, h⟩
+
+theorem ex_domain : Domain exPb where
+  vrNodup := by decide
+  resNodup := by decide
+  demandNonneg := by decide
+  alignPos := by intro r a h; simp [exPb] at h
+  cores18 := by
+    intro xy c h
+    unfold Rig.C05.capacity Rig.C05.Machine.get at h
+    cases hc : (m5 exPb).contains xy with
+    | false => simp [hc] at h
+    | true =>
+      simp only [hc, if_true] at h
+      have e : ((m5 exPb).exceptions.lookup xy).getD (m5 exPb).chipResources = [(0, 3), (1, 100)] := rfl
+      rw [e] at h
+      have e2 : List.lookup exPb.coreRes [((0 : Nat), (3 : Int)), (1, 100)] = some 3 := rfl
+      simp only [Option.bind_some] at h
+      rw [e2] at h
+      cases h; decide
+  endpointIsLink := by
+    intro v r h
+    simp [exPb] at h
+    omega
+  endpointDead := by
+    intro v r h
+    simp [exPb] at h
+    obtain ⟨rfl, rfl⟩ := h
+    exact ⟨(4, 0), by simp [exPb], by decide⟩
+  keysDisjoint := by decide
+
+theorem ex_placerDomain : PlacerDomain exPb (.seq none none) where
+  nonnegCap := by
+    intro c _ i
+    have : Rig.C02.cap exPb.m2 c = [3, 100] := rfl
+    rw [this]
+    match i with
+    | 0 => decide
+    | 1 => decide
+    | i + 2 => simp [Rig.C02.dem]
+  consistent := by
+    intro vr' cs' subs h
+    have e : Rig.C02.applySame (vr02 exPb) (cs02 exPb) = .ok (vr02 exPb, cs02 exPb, []) := by rfl
+    rw [e] at h; injection h with h; injection h with h1 h2; injection h2 with h2 h3
+    subst h2
+    intro v c c' hc hc'
+    simp [cs02, exPb, PC.to02] at hc hc'
+    rw [hc.2, hc'.2]
+  emptyOK := by intro h; simp [vr02, exPb] at h
+  oracle := by intro o h; cases h
+
+/-- the conclusion of `model_pipeline_delivers` for the example, through the theorem -/
+example : ∃ out, exRun = .ok out ∧
+    List.Forall₂ (fun (n : ANet) (q : PNet) =>
+        NetOf exPb out.placement out.alloc n q ∧
+        ∀ k : W, k &&& n.mask = n.key →
+          Delivered (deliver (machine3 exPb) (devLinks exPb out.placement) (tableAt out.final) k q.src)
+            (sinkCores q.sinks) (sinkExits q.sinks))
+      exPb.nets out.nets := by
+  obtain ⟨out, h, _⟩ := ex_runs
+  exact ⟨out, h, (model_pipeline_delivers exPb _ _ _ _ out ex_domain ex_placerDomain h).2.2⟩
+
+/-- and directly, by evaluation: key 5 (net A, don't-care bit set) injected at (0,0) crosses the default-routed chip
+(1,0) and reaches core 1 of chip (2,0) once; key 2 (net B) injected at (1,0) reaches its four cores and the device -/
+example : deliver (machine3 exPb) [((4, 0), 0)] (tableAt exFinal) 5#32 (0, 0) = [.core (2, 0) 1] ∧
+    deliver (machine3 exPb) [((4, 0), 0)] (tableAt exFinal) 2#32 (1, 0) =
+      [.core (1, 0) 1, .core (1, 0) 2, .core (0, 0) 1, .core (0, 0) 2, .exit (4, 0) 0] := by decide +kernel
 
 end Rig.C01Pipe
